@@ -6,7 +6,7 @@ from core import Case
 from pyerr import canon_call
 
 PROP = 'C11'
-COQ_TARGETS = ['theories/SsmFacts.vo', 'theories/SsmC11.vo', 'theories/SsmC11s.vo', 'theories/IocbFacts.vo']
+COQ_TARGETS = ['theories/SsmFacts.vo', 'theories/SsmC11.vo', 'theories/SsmC11s.vo', 'theories/SsmC11a.vo', 'theories/IocbFacts.vo']
 COQ_IMPORTS = 'From Bac Require Import Base Iocb Ssm SsmWorld.'
 RULE = ('cases: 1..40 concurrent requests from one or two clients over 1..4 servers, application-chosen invoke ids colliding across '
         'peers (and within one peer: refused), answers delayed up to 4 s so that retransmissions meet a transaction still being '
@@ -14,7 +14,8 @@ RULE = ('cases: 1..40 concurrent requests from one or two clients over 1..4 serv
         'completion; > 256 requests in sequence with long-lived ones in between (counter wrap-around); get_next_invoke_id on '
         'random live sets incl. 254..256 live ids; nodes that are client AND server towards each other with equal ids in both directions and '
         'late Aborts of both polarities; server applications that park answers and give them from inside a later indication to clients with equal ids; stations that differ only in network number or MAC length (1:5, 2:5, 05, 00:05) '
-        'as clients of one server and as servers of one client; IOCB histories with three or more IOCBs queued to one peer and client aborts of waiting ones.  Compared: the whole canonical trace.  non-trivial = at least one frame, or an '
+        'as clients of one server and as servers of one client; IOCB histories with three or more IOCBs queued to one peer and client aborts of waiting ones; > 512 requests to one peer with a run of live ids across 255 -> 0 when the cursor '
+        'comes round; client applications whose confirmation callback submits the next request at once with the same application-chosen id.  Compared: the whole canonical trace.  non-trivial = at least one frame, or an '
         'allocation with >= 1 live transaction; distinct by scenario.')
 TRUSTED = S.TRUSTED
 ASSUMPTIONS = S.ASSUMPTIONS
@@ -55,6 +56,10 @@ def cases(rng, tier):
         out.append(S.scenario_case(S.gen_concurrent(rng), 'concurrent'))
     for _ in range(3 if tier == 'thorough' else 1):
         out.append(S.scenario_case(S.gen_wrap(rng), 'id-wrap-around'))
+    for _ in range(4 if tier == 'thorough' else 1):
+        out.append(S.scenario_case(S.gen_wrap_run(rng), 'live-run-across-wrap'))
+    for _ in range(400 if tier == 'thorough' else 40):
+        out.append(S.scenario_case(S.gen_chained(rng), 'chained-requests'))
     for _ in range(600 if tier == 'thorough' else 60):
         out.append(S.scenario_case(S.gen_bidirectional(rng), 'bidirectional'))
     for _ in range(300 if tier == 'thorough' else 40):
@@ -77,6 +82,8 @@ def direct(rng, tier, focus=()):
     big = tier == 'thorough'
     fams = [('concurrent', lambda r: S.gen_concurrent(r), 12000 if big else 900),
             ('wrap', lambda r: S.gen_wrap(r), 8 if big else 2),
+            ('live-run-across-wrap', lambda r: S.gen_wrap_run(r), 30 if big else 10),
+            ('chained-requests', lambda r: S.gen_chained(r), 6000 if big else 600),
             ('bidirectional', lambda r: S.gen_bidirectional(r), 8000 if big else 800),
             ('parked-answers', lambda r: S.gen_park_flush(r), 4000 if big else 400),
             ('transaction', lambda r: S.gen_transaction(r), 8000 if big else 800)]
